@@ -7,3 +7,4 @@ import LicenseExpr.Props.C04
 #print axioms LE.ownedW_spec
 #print axioms LE.C04_alone
 #print axioms LE.C04_alone_validates
+#print axioms LE.C04_in_context
